@@ -259,6 +259,53 @@ GrHolds(n, idx) ==
      /\ Norm1(Adj(B)) * GrESum(n, idx) <= Abs(det) * Pow(2, 20)
      /\ Norm1(B) * Norm1(Adj(B)) <= 200 * Abs(det)                 \* kappa(B0) <= 200
 
+(* ------------------------------------------------------------ scaled families *)
+(* Well-conditioned positive definite matrices whose DETERMINANT lies outside
+   the floating-point range although its logarithm is perfectly representable:
+   A = 2^k B with B = tridiag(-1,2,-1) ("st": det B = n+1,
+   B^-1[i][j] = min(i,j)(n+1-max(i,j))/(n+1)) or B = diag(1,2,3,1,2,3,..) ("sd").
+   Printed symbolically (base matrix, power-of-two exponent):
+     ln det A = sum count * ln(value) over logterms + n k ln 2,
+     A^-1 = invnum / (invden 2^k).
+   TLC verifies B invnum = invden I and the determinant of the tridiagonal base
+   by its three-term recurrence (cross-checked against DetLaplace for n <= 6). *)
+SExps == <<-70, -27, 0, 27, 70>>
+TriDiag(n) == TLCEval([i \in 1..n |-> TLCEval([j \in 1..n |-> IF i = j THEN 2 ELSE IF Abs(i - j) = 1 THEN -1 ELSE 0])])
+RECURSIVE TriDet(_)
+TriDet(m) == IF m = 0 THEN 1 ELSE IF m = 1 THEN 2 ELSE 2 * TriDet(m - 1) - TriDet(m - 2)
+DiagVal(i) == ((i - 1) % 3) + 1
+DiagM(n) == TLCEval([i \in 1..n |-> TLCEval([j \in 1..n |-> IF i = j THEN DiagVal(i) ELSE 0])])
+MinI(a, b) == IF a < b THEN a ELSE b
+MaxI(a, b) == IF a < b THEN b ELSE a
+ScBase(c) == IF c.fam = "st" THEN TriDiag(c.n) ELSE DiagM(c.n)
+ScInvDen(c) == IF c.fam = "st" THEN c.n + 1 ELSE 6
+ScInvNum(c) ==
+  LET n == c.n IN
+  IF c.fam = "st"
+  THEN TLCEval([i \in 1..n |-> TLCEval([j \in 1..n |-> MinI(i, j) * (n + 1 - MaxI(i, j))])])
+  ELSE TLCEval([i \in 1..n |-> TLCEval([j \in 1..n |-> IF i = j THEN 6 \div DiagVal(i) ELSE 0])])
+ScLogTerms(c) ==
+  IF c.fam = "st" THEN << <<c.n + 1, 1>> >>
+  ELSE TLCEval([v \in 1..3 |-> <<v, Cardinality({i \in 1..c.n : DiagVal(i) = v})>>])
+ScaledHolds(c) ==
+  LET B == ScBase(c)  n == c.n IN
+  /\ MulII(B, ScInvNum(c)) = TLCEval([i \in 1..n |-> TLCEval([j \in 1..n |-> IF i = j THEN ScInvDen(c) ELSE 0])])
+  /\ IsSymmetric(B)
+  /\ c.fam = "st" => (TriDet(n) = n + 1 /\ \A m \in 1..6 : TriDet(m) = DetLaplace(TriDiag(m)))
+  /\ c.fam = "sd" => \A v \in 1..3 : v > 0
+ScaledRecord(c) ==
+  LET B == ScBase(c)  n == c.n  num == ScInvNum(c) IN
+  [k |-> "smat", fam |-> c.fam, n |-> n, idx |-> c.idx, base |-> B, sexp |-> SExps[c.idx + 1],
+   logterms |-> ScLogTerms(c), invnum |-> num, invden |-> ScInvDen(c),
+   kap |-> LET q == Rat(Norm1(B) * Norm1(num), ScInvDen(c)) IN <<q.n, q.d>>]
+IsScaled(c) == c.fam \in {"st", "sd"}
+ScaledCases(b) ==
+  {[fam |-> f, n |-> m, idx |-> i] : f \in {"st", "sd"}, m \in {5, 12, 40}, i \in {k \in 0..4 : k % NB = b}}
+
+(* a structurally singular matrix handed to a routine BEFORE the case's matrix
+   with the same caller-supplied work space (history "rejected call first") *)
+PriorSingular(n) == TLCEval([i \in 1..n |-> TLCEval([j \in 1..n |-> IF n = 1 THEN 0 ELSE 1])])
+
 MatOf(c) ==
   CASE c.fam = "g"   -> GenMat(c.n, c.idx)
     [] c.fam = "pd"  -> PdMat(c.idx)
@@ -289,6 +336,7 @@ CasesOfBlock(b) ==
           GrHolds(c.n, c.idx)}
   \cup CasesOfFam("spd", 1, SpdCount(1), 1, b) \cup CasesOfFam("spd", 2, SpdCount(2), 1, b)
   \cup CasesOfFam("spd", 3, SpdCount(3), 1, b) \cup CasesOfFam("spd", 4, SpdCount(4), Mod4 \div 4, b)
+  \cup ScaledCases(b)
 
 (* ------------------------------------------------------------ the printed case *)
 R2(r) == <<r.n, r.d>>                         \* a rational as [n, d]
@@ -338,6 +386,7 @@ GrRecord(c) ==
 
 CaseRecord(c) ==
   IF c.fam = "gr" THEN GrRecord(c) ELSE
+  IF IsScaled(c) THEN ScaledRecord(c) ELSE
   LET A == MatOf(c)
       n == c.n
       det == Det(A)
@@ -390,6 +439,7 @@ Next == \/ /\ blk = -1
            /\ \E c \in CasesOfBlock(blk) : cs' = c /\ blk' = blk
 Spec == Init /\ [][Next]_gvars
 
-ContractOK == IsCase(cs) => ContractHolds(cs)
+ContractOK == IsCase(cs) => IF IsScaled(cs) THEN ScaledHolds(cs)
+                           ELSE (ContractHolds(cs) /\ IsStructurallySingular(PriorSingular(cs.n)))
 Emit == IsCase(cs) => PrintT(ToJson(CaseRecord(cs)))
 =============================================================================
